@@ -178,6 +178,9 @@ class MoveMemrefDims(RewritePattern):
                 # This happens when the dim is called on an input argument
                 return True
             if isinstance(memref_op, memref.SubviewOp):
+                if memref_op.result.type.get_num_dims() != len(memref_op.static_sizes.get_values()):
+                    # rank-reducing subview: dimension `index` of the result is not entry `index` of the sizes
+                    return False
                 subview_size = get_subview_dim(memref_op, index)
                 if isinstance(subview_size, int):
                     return True
